@@ -22,7 +22,18 @@ def main():
         args = [a for a in args if a != tier]
     ids = args or sorted(d for d in os.listdir(ROOT) if os.path.isdir(os.path.join(ROOT, d)))
     res_path = os.path.join(ROOT, 'RESULTS.json')
-    results = json.load(open(res_path)) if os.path.exists(res_path) else {}
+    if '--out' in sys.argv:       # parallel streams write their own file; merge with --merge f1 f2 ...
+        res_path = sys.argv[sys.argv.index('--out') + 1]
+        args = [a for a in args if a != res_path]
+        ids = args
+    if '--merge' in sys.argv:
+        results = json.load(open(res_path)) if os.path.exists(res_path) else {}
+        for f in args:
+            results.update(json.load(open(f)))
+        json.dump(results, open(res_path, 'w'), indent=1, sort_keys=True)
+        ids = []
+    if '--merge' not in sys.argv:
+        results = json.load(open(res_path)) if os.path.exists(res_path) else {}
     for mid in ids:
         d = os.path.join(ROOT, mid)
         meta = json.load(open(os.path.join(d, 'meta.json')))
